@@ -8,6 +8,7 @@ pub mod c02;
 pub mod c03;
 pub mod c04;
 pub mod c09;
+pub mod c13;
 
 pub fn run(id: &str, tier: Tier, seed: u64) -> Option<i32> {
     Some(match id {
@@ -16,6 +17,7 @@ pub fn run(id: &str, tier: Tier, seed: u64) -> Option<i32> {
         "C03" => c03::run(tier, seed),
         "C04" => c04::run(tier, seed),
         "C09" => c09::run(tier, seed),
+        "C13" => c13::run(tier, seed),
         _ => return None,
     })
 }
@@ -28,4 +30,15 @@ pub fn universe_by_tag(_tag: &str) -> Option<Uni> {
 /// Replay of case kinds private to single checks. Returns the number of violations reproduced.
 pub fn replay(prop: &str, case: &serde_json::Value) -> Result<u64, String> {
     Err(format!("no replay handler for property {prop} case kind {:?}", case["kind"]))
+}
+
+/// Subprocess entry points (isolation of runs that may kill the process).
+pub fn worker(args: &[String]) -> i32 {
+    match args.first().map(|s| s.as_str()) {
+        Some("c13deep") => c13::worker_deep(),
+        other => {
+            eprintln!("unknown worker {other:?}");
+            2
+        }
+    }
 }
